@@ -3,6 +3,7 @@ import numpy as np
 from pyvc.contract import contract, macro, spec_fn, corollary, CONTRACTS
 from pyvc import gens
 import pyvc.calls  # noqa: F401  (loads pyvc/ext/*, incl. the ghost position counter of pyvc/ext/c04.py)
+from pyvc.ext import c04 as _ext
 
 IU = "autoarray.inversion.inversion.imaging.inversion_imaging_util:"
 VU = "autoarray.inversion.inversion.inversion_util:"
@@ -243,3 +244,92 @@ def _g_mru(rng, tier):
 
 CONTRACTS[IU + "data_vector_via_w_tilde_data_imaging_from"].gen = _g_dvw
 CONTRACTS[VU + "mapped_reconstructed_data_via_image_to_pix_unique_from"].gen = _g_mru
+
+# ------------------------------------------------------------------------------------------------
+# w-tilde formalism: data term   wd_p = sum_{(a,b) in kernel} K[a,b] (d / sigma^2)[y_p + a - hy, x_p + b - hx]
+# half-widths PER AXIS: hy = Ky // 2 (rows), hx = Kx // 2 (columns); masked native pixels (sigma = 0) contribute nothing
+# ------------------------------------------------------------------------------------------------
+def _wgt_py(d, s, y, x):
+    if not (0 <= y < d.shape[0] and 0 <= x < d.shape[1]):
+        return 0.0
+    return float(d[y, x] / s[y, x] ** 2) if s[y, x] != 0 else 0.0
+
+
+# noise-weighted data value of native pixel (y, x); zero on pixels without noise value (masked)
+macro("c04_wgt", ["d", "s", "y", "x"], "(d[y, x] / s[y, x] ** 2 if s[y, x] != 0 else 0)", py=_wgt_py)
+
+_NAT = {"H": "noise_map_native.shape[0]", "W": "noise_map_native.shape[1]", "Ky": "kernel_native.shape[0]", "Kx": "kernel_native.shape[1]",
+        "hy": "kernel_native.shape[0] // 2", "hx": "kernel_native.shape[1] // 2", "N": "native_index_for_slim_index.shape[0]",
+        "nfs": "native_index_for_slim_index", "K": "kernel_native"}
+_NATREQ = ["native_index_for_slim_index.shape[1] == 2",
+           "Ky == 2 * hy + 1", "Kx == 2 * hx + 1",                      # odd PSF (statement)
+           # kernel footprint of every unmasked pixel inside the frame (statement)
+           "forall(0, N, lambda p: hy <= nfs[p, 0] and nfs[p, 0] < H - hy and hx <= nfs[p, 1] and nfs[p, 1] < W - hx)"]
+
+_WDI = "sumto({nb}, lambda b: K[{a}, b] * c04_wgt(image_native, noise_map_native, {y} + {a} - hy, {x} + b - hx))"
+_WD = "sumto({na}, lambda a: " + _WDI.format(nb="Kx", a="a", y="{y}", x="{x}") + ")"
+contract(
+    IU + "w_tilde_data_imaging_from", props=["C04"],
+    types={"image_native": "real[2]", "noise_map_native": "real[2]", "kernel_native": "real[2]", "native_index_for_slim_index": "int[2]"},
+    returns="real[1]", let=_NAT,
+    requires=_NATREQ + ["image_native.shape[0] == H", "image_native.shape[1] == W",
+                        # pixels without a noise value (masked: native arrays are zero there) carry no data either
+                        "forall(0, H, lambda y: forall(0, W, lambda x: implies(noise_map_native[y, x] == 0, image_native[y, x] == 0)))"],
+    ensures=["result.shape[0] == N",
+             "forall(0, N, lambda p: result[p] == " + _WD.format(na="Ky", y="nfs[p, 0]", x="nfs[p, 1]") + ")"],
+    loops={
+        0: {"inv": ["forall(0, ip0, lambda p: w_tilde_data[p] == " + _WD.format(na="Ky", y="nfs[p, 0]", x="nfs[p, 1]") + ")"]},
+        1: {"inv": ["value == " + _WD.format(na="k0_y", y="nfs[ip0, 0]", x="nfs[ip0, 1]")]},
+        2: {"inv": ["value == " + _WD.format(na="k0_y", y="nfs[ip0, 0]", x="nfs[ip0, 1]")
+                    + " + " + _WDI.format(nb="k0_x", a="k0_y", y="nfs[ip0, 0]", x="nfs[ip0, 1]")],
+            # stepping stones: the weight read by the code is the noise-weighted data value; it is NaN exactly on zero noise
+            "assert_at": {1: ["ip0_y + k0_y + kernel_shift_y == nfs[ip0, 0] + k0_y - hy and ip0_x + k0_x + kernel_shift_x == nfs[ip0, 1] + k0_x - hx",
+                              "np.isnan(weight_value) == (noise_map_native[nfs[ip0, 0] + k0_y - hy, nfs[ip0, 1] + k0_x - hx] == 0)",
+                              "(0 if np.isnan(weight_value) else weight_value)"
+                              " == c04_wgt(image_native, noise_map_native, nfs[ip0, 0] + k0_y - hy, nfs[ip0, 1] + k0_x - hx)"]}},
+    },
+    sentence={"sumto": "w_tilde_data[p] = sum over kernel offsets (a, b) of K[a,b] * (data / noise^2) at the native pixel displaced from "
+                       "pixel p by (a - Ky//2, b - Kx//2): the half-width of each axis is taken from that axis; masked pixels contribute zero"},
+)
+_ext.NAN_DIV.add(IU + "w_tilde_data_imaging_from")
+
+_KSHAPES = [(1, 1), (3, 3), (1, 3), (3, 1), (3, 5), (5, 3), (1, 5), (5, 1)]
+
+
+def _native_case(rng, tier, zero_masked=True):
+    """mask with every kernel footprint inside the frame; native data / noise (zero on masked pixels), signed kernel, index table"""
+    ky, kx = rng.choice(_KSHAPES)
+    hy, hx = ky // 2, kx // 2
+    ih, iw = rng.randint(1, 3), rng.randint(1, 3)
+    ey, ex = rng.choice([0, 0, 1]), rng.choice([0, 0, 1])
+    H, W = ih + 2 * hy + ey, iw + 2 * hx + ex
+    mask = np.ones((H, W), dtype=bool)
+    oy, ox = rng.randint(0, ey), rng.randint(0, ex)
+    while mask.all():
+        for y in range(ih):
+            for x in range(iw):
+                mask[hy + oy + y, hx + ox + x] = rng.random() < 0.3
+    data = gens.reals(rng, (H, W), -3, 3, special=False)
+    noise = gens.reals(rng, (H, W), 0.3, 2.5, special=False)
+    if zero_masked:
+        data[mask] = 0.0
+        noise[mask] = 0.0
+    mode = rng.randrange(3)
+    if mode == 0:
+        kernel = np.abs(gens.reals(rng, (ky, kx), 0.1, 2, special=False))
+    elif mode == 1:
+        kernel = gens.reals(rng, (ky, kx), -2, 2, special=False)
+    else:
+        kernel = np.array([[rng.choice([1.0, -2.0, 0.0, 0.5]) for _ in range(kx)] for _ in range(ky)])
+    nfs = np.argwhere(~mask).astype(int)
+    return mask, data, noise, kernel, nfs
+
+
+def _g_wd(rng, tier):
+    for _ in range(gens.budget(tier, 150, 1500)):
+        mask, data, noise, kernel, nfs = _native_case(rng, tier, zero_masked=rng.random() < 0.8)
+        yield {"image_native": data, "noise_map_native": noise, "kernel_native": kernel, "native_index_for_slim_index": nfs}
+
+
+CONTRACTS[IU + "w_tilde_data_imaging_from"].gen = _g_wd
+CONTRACTS[IU + "w_tilde_data_imaging_from"].nontrivial = lambda kernel_native, **kw: kernel_native.shape[0] != kernel_native.shape[1]
